@@ -861,6 +861,12 @@ class Ops(SeriesOps):
                 if n.id.startswith("__at_"):
                     return to_term(self.I.lookup(n.id[5:], node))
                 return f.col(n.id)
+            if isinstance(n, ast.Call) and isinstance(n.func, ast.Attribute) and not n.keywords and all(isinstance(a_, ast.Constant) or (isinstance(a_, ast.UnaryOp) and isinstance(a_.operand, ast.Constant)) for a_ in n.args):
+                # a series method on a column expression (end_ts.shift(1)): what the method gives on that column
+                recv = ev(n.func.value)
+                r_ = self.series_method(Ser(recv, f.ctx(), f), n.func.attr, [ast.literal_eval(a_) for a_ in n.args], {}, node)
+                if isinstance(r_, Ser) and r_.ctx == f.ctx():
+                    return r_.term
             return T.opaque(f"query construct {type(n).__name__}")
 
         return ev(tree)
